@@ -902,7 +902,7 @@ def form_failure(subs, filt, proj, params, graph, g, mode, got, want):
                         if differs or not k.startswith('unlisted'): key = key or k
     except Skip:
         pass
-    key = known_agg_key(subs) or key
+    key = known_agg_key(subs, (subs, filt, proj, params)) or key
     if key is None: key = 'unlisted:collection:formula'
     what = '%s with %s on group %s with members %s: Pony gives %r, the comprehension gives %r' % (
         form_qsrc(subs, filt, proj), {('x%d' % i): v for i, v in sorted(params.items())}, g, [m['id'] for m in members(graph, g)], got, want)
@@ -936,14 +936,39 @@ def gen_formula(rng, g_in, g_out, depth, subs):
 
 
 P_ATTRS = ('a', 'b', 'r', 's', 'u', 'f', 'g')
-SEARCH_MODE = [False]      # the search also produces the two recorded defect shapes (outer-only item, sum of a boolean item)
+SEARCH_MODE = [False]      # the search also produces the recorded defect shape (an item without a column of m)
 
 
-def known_agg_key(subs):
-    for x in subs:
-        if x[0] == 'agg' and not (L.attrs_of(x[2]) & set(P_ATTRS)): return 'collection-aggregate-of-outer-only-item'
-    for x in subs:
-        if x[0] == 'agg' and x[1] == 'sum' and L.ty_of(x[2]) == 'bool': return 'sum-of-booleans-over-collection-is-returned-as-bool'
+def _has_alias_column(x, alias):
+    if isinstance(x, (list, tuple)):
+        if len(x) == 3 and x[0] == 'COLUMN' and x[1] == alias: return True
+        if len(x) == 3 and x[0] in ('IN', 'NOT_IN') and x[2] == []: return False      # rendered `0 = 1` / `1 = 1`: the operand is not in the SQL text
+        return any(_has_alias_column(y, alias) for y in x if isinstance(y, (list, tuple)))
+    return False
+
+
+def _outer_only_aggregate(x):
+    """Does the AST contain an aggregate subselect whose argument mentions no column of the subselect's own table?"""
+    if isinstance(x, (list, tuple)):
+        if (len(x) == 4 and x[0] == 'SELECT' and len(x[1]) == 2 and x[1][0] == 'AGGREGATES' and len(x[1][1]) == 3 and x[2][0] == 'FROM'
+                and not _has_alias_column(x[1][1][2], x[2][1][0])): return True
+        return any(_outer_only_aggregate(y) for y in x if isinstance(y, (list, tuple)))
+    return False
+
+
+def outer_only_query(subs, filt, proj, params):
+    from pony import orm
+    db, P, G, D = J.get_db('sqlite')
+    try:
+        with orm.db_session:
+            t = orm.select(form_qsrc(subs, filt, proj)[len('select('):-1], query_globals(G, params))._translator
+            return _outer_only_aggregate([t.conditions, t.expr_columns])
+    except Exception:
+        return False
+
+
+def known_agg_key(subs, query=None):
+    if query is not None and any(x[0] == 'agg' for x in subs) and outer_only_query(*query): return 'collection-aggregate-of-outer-only-item'
     return None
 
 
@@ -955,7 +980,7 @@ def gen_scalar_sub(rng, g_in, subs, kind=None):
         subs.append(('count', inner() if rng.random() < 0.6 else None))
         return ('col', SUB_BASE + len(subs) - 1, 'int', False), 'int'
     f = rng.choice(('sum', 'sum', 'min', 'max', 'count'))
-    t = rng.choice(('int', 'int', 'int', 'bool') if (f == 'sum' and SEARCH_MODE[0]) else ('int', 'str') if f != 'sum' else ('int',))
+    t = rng.choice(('int', 'int', 'int', 'bool') if f == 'sum' else ('int', 'str'))
     for _ in range(50):
         item = g_in.value(t, rng.choice((1, 1, 2)), True)
         if (L.attrs_of(item) & set(P_ATTRS)) or (SEARCH_MODE[0] and rng.random() < 0.1): break
@@ -979,6 +1004,8 @@ FORM_HANDMADE = [
     ([('exists', None), ('agg', 'max', ('attr', 'b'), None), ('agg', 'count', ('attr', 's'), None)], ('or', S40, ('cmp', 'is', ('attr', 'group.level'), ('none',))), ('coalesce', (('col', 41, 'int', True), ('col', 42, 'int', False)))),
     ([('in', ('attr', 'group.number'), 'r', 'gen', ('attr', 'g')), ('in', ('attr', 'group.level'), 'b', 'gen', None)], ('not', ('and', S40, S41)), None),
     ([('count', ('cmp', '>', ('attr', 'a'), ('int', 0))), ('count', None)], ('cmp', '<', ('col', 40, 'int', False), ('col', 41, 'int', False)), None),
+    ([('exists', None), ('agg', 'sum', ('attr', 'g'), None)], S40, ('col', 41, 'int', False)),                       # sum of a boolean item is an int (37ddc86)
+    ([('agg', 'sum', ('attr', 'f'), None)], ('cmp', '>=', ('col', 40, 'int', False), ('int', 2)), None),
 ]
 
 
@@ -999,6 +1026,7 @@ def gen_form_queries(ctx, n, search=False):
         elif r < 0.45 and len(subs) < 6:
             leaf, t = gen_scalar_sub(rng, g_in, subs)
             proj = leaf if rng.random() < 0.6 or t != 'int' else ('arith', rng.choice(('+', '-', '*')), leaf, _gen_outer(g_out, rng, lambda: g_out.value('int', 1, False)))
+        if not search and any(x[0] == 'agg' for x in subs) and outer_only_query(subs, filt, proj, dict(g_in.params)): continue
         out.append((subs, filt, proj, dict(g_in.params)))
     return out
 
@@ -1041,7 +1069,7 @@ def form_cases(ctx, queries, real):
 
 
 def form_raises(subs, filt, proj, params, graph, ex):
-    key = known_agg_key(subs) if known_agg_key(subs) == 'collection-aggregate-of-outer-only-item' else None
+    key = known_agg_key(subs, (subs, filt, proj, params))
     key = key or 'unlisted:collection:formula-raises:%s' % type(ex).__name__
     what = '%s with %s: the database rejects the statement (%s: %s); Python evaluates the comprehension' % (
         form_qsrc(subs, filt, proj), {('x%d' % i): v for i, v in sorted(params.items())}, type(ex).__name__, str(ex)[:80])
